@@ -341,6 +341,7 @@ func vgExec(c vgCfg, op vgOp, i int, plane *Plane, x *X) (interface{ Bytes() []b
 	var keep interface{ Bytes() []byte }
 	var err error
 	var pv any
+	var marshalDiff string
 	func() {
 		defer func() { pv = recover() }()
 		switch op.Op {
@@ -350,6 +351,14 @@ func vgExec(c vgCfg, op vgOp, i int, plane *Plane, x *X) (interface{ Bytes() []b
 			if mm != nil {
 				keep = mm
 				out = mm.Bytes()
+				// the update is a value: encoding it (both ways the interface offers) does not use it up
+				var mb bytes.Buffer
+				mm.Marshal(&mb)
+				if !bytes.Equal(mb.Bytes(), out) {
+					marshalDiff = fmt.Sprintf("Marshal() wrote %s, Bytes() returned %s", shortHex(mb.Bytes()), shortHex(out))
+				} else if again := mm.Bytes(); !bytes.Equal(again, out) {
+					marshalDiff = fmt.Sprintf("Bytes() after a Marshal() returned %s, before it %s", shortHex(again), shortHex(out))
+				}
 			}
 		case "WriteSignedUpdate":
 			sfs := NewSimFs(afero.NewMemMapFs(), plane, nil)
@@ -380,6 +389,10 @@ func vgExec(c vgCfg, op vgOp, i int, plane *Plane, x *X) (interface{ Bytes() []b
 	}
 	x.Steps++
 	x.Nontriv = true
+	if marshalDiff != "" {
+		fail("varsign.update_stays_valid", "%s", marshalDiff)
+		return nil, nil
+	}
 	b := out
 	x.Logf("update: %d bytes, head=%x", len(b), b[:min(len(b), 40)])
 	if len(b) < 40 {
